@@ -9,9 +9,12 @@ Model (core Lean only, compiled into `c02driver`):
                exported fields), non-instruction values, a table of the types involved.
 * value ids    instruction `k` (in block order) has id `k`; non-instruction value `j` has
                id `ninstr + j`.
-* `msort`, `squash`, `avoidSet`   fuel-based merge sort, duplicate squashing, array DFS —
-               *unverified helpers*: the validator only relies on facts it re-checks
-               (`msort_perm`, `mem_squash`, `closedOK`), see Theorems.lean.
+* `msort`, `squash`   fuel-based merge sort (reduces in the kernel, unlike `List.mergeSort`)
+               and duplicate squashing; proved to be a permutation, sorted and canonical
+               (`msort_perm`, `msort_sorted`, `msort_canon`, `canonSet_eq_iff`), Sorting.lean.
+* `avoidSet`   array DFS — an *unverified helper*: each candidate set is used only if it
+               passes the re-check `closedOK` (`vetSets`), otherwise the exact reference
+               `Verif.C14.dom` decides.
 * clause checkers `cShape … cTyping`, `wfCheck` = their conjunction.
 
 The declarative specification `WF` and the soundness theorem are in Spec.lean /
@@ -77,6 +80,9 @@ structure Instr where
   xs : List (Option Nat)
   /-- `Operands()`, `none` = nil operand -/
   ops : List (Option Nat)
+  /-- the operands the STRUCT of the instruction holds (every field of static type `ir.Value`,
+  through nested structs and slices, by reflection — independent of the `Operands()` method) -/
+  fops : List (Option Nat)
   refs : Option (List Nat)
 deriving Repr, Inhabited, DecidableEq
 
@@ -97,6 +103,14 @@ structure FnDump where
   recover : Option Nat
   /-- result types of the signature -/
   results : List Nat
+  /-- `Function.Params` (value ids) -/
+  params : List Nat
+  /-- receiver type (if the signature has a receiver), then the types of `Signature.Params()` -/
+  sigParams : List Nat
+  /-- `Function.FreeVars` (value ids) -/
+  freeVars : List Nat
+  /-- `Function.Locals` (instruction ids; `none` = an Alloc that is in no block of the function) -/
+  locals : List (Option Nat)
 deriving Repr, Inhabited
 
 namespace FnDump
